@@ -993,7 +993,7 @@ func (s *bytesFilter) Extend(bs ...[]byte) BytesFilter {
 	for k, v := range s.slots {
 		newSlot := make([][]byte, len(v))
 		copy(newSlot, v)
-		newFilter.slots[k] = v
+		newFilter.slots[k] = newSlot
 	}
 	for _, b := range bs {
 		newFilter.Add(b)
@@ -1008,7 +1008,7 @@ func (s *bytesFilter) ExtendString(elements string) BytesFilter {
 	for k, v := range s.slots {
 		newSlot := make([][]byte, len(v))
 		copy(newSlot, v)
-		newFilter.slots[k] = v
+		newFilter.slots[k] = newSlot
 	}
 	start := 0
 	for i := 0; i < len(elements); i++ {
